@@ -82,11 +82,14 @@ def generate(rng, tier='quick', kind=None, mode='history', **kw):
       # members that take a long time to open (slow handshake): growth must not
       # wait for an open that is still in flight
       cfg.update({'open_delay': rng.choice([5.0, 12.0, 30.0]), 'open_sync': False})
-    for _ in range(rng.randint(1, 3)):
+    quiet = rng.random() < 0.2
+    for _ in range(rng.randint(1, 3) if not quiet else rng.randint(2, 3)):
       c = rng.choice([1, 2, 3, 5, 8, 12, 20])
       svc = max(rng.choice([0.05, 0.2, 0.5]), c * 70.0 / 3000)
       ops.append({'t': round(t, 3), 'op': 'steady', 'c': c, 'dur': 70.0, 'svc': round(svc, 3)})
       t += 75.0
+      if quiet:
+        t += rng.choice([3700.0, 7300.0])     # hours without a single request
     return {'world': 'w_bal', 'cfg': cfg, 'ops': ops, 'mode': 'steady'}
   if mode == 'jitter' and kind == 'aperture':
     # jitter rounds (expand one, wait for its open, contract one) racing with
